@@ -218,6 +218,9 @@ def build():
     ch_ = straight_chain(fields_cmp_chain(b, "RecordHeader::cmp"), "RecordHeader::cmp")
     defs.append(("header_cmp_fields", "list N", nlist([FIELD[x] for x, _ in ch_])))
 
+    b = impl_after(rc, r"impl<'o,\s*Octs,\s*Other>\s*PartialEq<ParsedRecord<'o,\s*Other>>\s*for\s+ParsedRecord<'_,\s*Octs>\s*where[^{]*\{", "PartialEq for ParsedRecord")
+    one(r"self\.header\s*==\s*other\.header\s*&&\s*self\s*\.data\s*\.peek\(self\.header\.rdlen\(\) as usize\)\s*\.eq\(&other\.data\.peek\(other\.header\.rdlen\(\) as usize\)\)", fn_body(b, "eq"), "ParsedRecord::eq")
+    defs.append(("parsed_record_eq_is_header_and_rdata_octets", "bool", "true"))
     # ------------------------------------------------ record data: field order
     # schema field kinds: 1 = fixed-width integer / octets compared with cmp,
     # 2 = name compared with lowercase_composed_cmp, 3 = name compared with
@@ -363,6 +366,35 @@ def build():
         one(r"fn\s+canonical_cmp\(&self,\s*other:\s*&\$target<NN>\)\s*->\s*Ordering\s*\{\s*self\.\$field\.lowercase_composed_cmp\(&other\.\$field\)\s*\}", body, "%s canonical_cmp" % mname)
         one(r"fn\s+compose_canonical_rdata<Target>\([^)]*\)\s*->\s*Result<\(\),\s*Target::AppendError>\s*where[^{]*\{\s*self\.\$field\.compose_canonical\(target\)\s*\}", body, "%s compose_canonical_rdata" % mname)
     defs.append(("name_types_lowercase", "bool", "true"))
+    # TSIG: algorithm as is, time, fudge, MAC (length first), id, error, other (length first)
+    ts = strip_comments(read("src/rdata/tsig.rs"))
+    b = impl_after(ts, r"impl<O,\s*OO,\s*N,\s*NN>\s*CanonicalOrd<Tsig<OO,\s*NN>>\s*for\s+Tsig<O,\s*N>\s*where[^{]*\{", "Tsig::canonical_cmp")
+    cb = fn_body(b, "canonical_cmp")
+    steps = re.findall(r"self\.([a-z_]+)((?:\.as_ref\(\))?(?:\.len\(\))?)\s*\.(cmp|composed_cmp|lowercase_composed_cmp|name_cmp)\(\s*&?\s*other\.([a-z_]+)((?:\.as_ref\(\))?(?:\.len\(\))?)", cb)
+    want = [("algorithm", "", "composed_cmp"), ("time_signed", "", "cmp"), ("fudge", "", "cmp"), ("mac", ".as_ref().len()", "cmp"), ("mac", ".as_ref()", "cmp"),
+            ("original_id", "", "cmp"), ("error", "", "cmp"), ("other", ".as_ref().len()", "cmp"), ("other", ".as_ref()", "cmp")]
+    got = [(f, sfx, mth) for f, sfx, mth, g, sfx2 in steps]
+    if got != want or any(f != g or a != c for f, a, _, g, c in steps) or len(re.findall(r"\.(?:cmp|composed_cmp|name_cmp|lowercase_composed_cmp|canonical_cmp)\(", cb)) != len(want):
+        raise GenError("Tsig::canonical_cmp chain changed: %r" % (got,))
+    one(r"^\s*self\.compose_rdata\(target\)\s*$", fn_body(ts, "compose_canonical_rdata", after="ComposeRecordData for Tsig"), "Tsig canonical form is the plain form")
+    defs.append(("tsig_fields_ok", "bool", "true"))
+    # OPT: the option octets
+    op = strip_comments(read("src/base/opt/mod.rs"))
+    b = impl_after(op, r"impl<Octs,\s*Other>\s*CanonicalOrd<Opt<Other>>\s*for\s+Opt<Octs>\s*where[^{]*\{", "Opt::canonical_cmp")
+    one(r"self\.octets\.as_ref\(\)\.cmp\(\s*other\.octets\.as_ref\(\)\s*\)", b, "Opt::canonical_cmp is octets order")
+    defs.append(("opt_canonical_is_octets_cmp", "bool", "true"))
+    # IPSECKEY address gateways: A / Aaaa order (derived: the address)
+    one(r"\(IpseckeyGateway::Ipv4\(a\),\s*IpseckeyGateway::Ipv4\(o\)\)\s*=>\s*\{\s*a\.partial_cmp\(o\)\s*\}", gp, "IpseckeyGateway::partial_cmp ipv4 arm")
+    one(r"\(IpseckeyGateway::Ipv6\(aaaa\),\s*IpseckeyGateway::Ipv6\(o\)\)\s*=>\s*\{\s*aaaa\.partial_cmp\(o\)\s*\}", gp, "IpseckeyGateway::partial_cmp ipv6 arm")
+    one(r"\(IpseckeyGateway::None,\s*IpseckeyGateway::None\)\s*=>\s*\{\s*Some\(Ordering::Equal\)\s*\}", gp, "IpseckeyGateway::partial_cmp none arm")
+    for rel, ty in (("src/rdata/rfc1035/a.rs", "A"), ("src/rdata/aaaa.rs", "Aaaa")):
+        src_ = strip_comments(read(rel))
+        mm = one(r"#\[derive\(([^)]*)\)\]\s*(?:#\[[^\]]*\]\s*)*pub\s+struct\s+%s\s*\{\s*addr:\s*Ipv[46]Addr,?\s*\}" % ty, src_, "struct " + ty)
+        ds = [x.strip() for x in mm.group(1).split(",")]
+        for tr in ("PartialEq", "Eq", "PartialOrd", "Ord", "Hash"):
+            if tr not in ds:
+                raise GenError("%s no longer derives %s" % (ty, tr))
+    defs.append(("addr_types_derive_order", "bool", "true"))
     # AllRecordData::eq: is there an arm for the Unknown and for the Opt variant?
     ab = impl_after(mac, r"impl<O,\s*OO,\s*N,\s*NN>\s*PartialEq<AllRecordData<OO,\s*NN>>\s*for\s+AllRecordData<O,\s*N>\s*where[^{]*\{", "PartialEq for AllRecordData")
     eb = fn_body(ab, "eq")
@@ -370,6 +402,119 @@ def build():
     for var in ("Unknown", "Opt"):
         has = re.search(r"&AllRecordData::%s\(ref (\w+)\),\s*&AllRecordData::%s\(ref (\w+)\)\s*\)\s*=>\s*\{\s*\1\.eq\(\2\)\s*\}" % (var, var), eb) is not None
         defs.append(("all_record_data_eq_has_%s_arm" % var.lower(), "bool", bool_(has)))
+    # ---- per type tables: struct field kinds and the field lists of
+    # PartialEq / Ord / CanonicalOrd / Hash (indices into the struct order).
+    # kinds: 1 u8, 2 u16, 3 u32, 4 name (canonical form lower-cased),
+    # 5 name kept as is, 6 CharStr, 7 octets, 8 octets with a length octet in
+    # wire form (salt, owner hash), 9 type bitmap octets
+    KIND_TYPES = {
+        1: {"u8", "SecurityAlgorithm", "DigestAlgorithm", "TlsaCertificateUsage", "TlsaSelector", "TlsaMatchingType",
+            "SshfpAlgorithm", "SshfpType", "Nsec3HashAlgorithm", "CaaFlags", "ZonemdScheme", "ZonemdAlgorithm"},
+        2: {"u16", "Rtype"},
+        3: {"u32", "Ttl", "Timestamp", "Serial"},
+        4: {"N", "Name"}, 5: {"N", "Name"},
+        6: {"CharStr<Octs>", "CaaTag<Octs>"},
+        7: {"Octs"}, 8: {"Nsec3Salt<Octs>", "OwnerHash<Octs>"}, 9: {"RtypeBitmap<Octs>"},
+    }
+    def strip_attrs(t):
+        out = []; i = 0
+        while i < len(t):
+            if t.startswith("#[", i):
+                d = 0; j = i + 1
+                while j < len(t):
+                    if t[j] == "[": d += 1
+                    elif t[j] == "]":
+                        d -= 1
+                        if d == 0: break
+                    elif t[j] == '"':
+                        j += 1
+                        while t[j] != '"': j += 2 if t[j] == "\\" else 1
+                    j += 1
+                i = j + 1
+            else:
+                out.append(t[i]); i += 1
+        return "".join(out)
+    def idx_list(names, order, what):
+        for n_ in names:
+            if n_ not in order:
+                raise GenError("%s: unknown field %s" % (what, n_))
+        return [order.index(n_) for n_ in names]
+    def type_table(rel, ty, code, kinds):
+        src = strip_comments(read(rel))
+        m = one(r"pub\s+struct\s+%s<[^{]*\{" % ty, src, "struct %s" % ty)
+        body = strip_attrs(block_from(src, m.end() - 1))
+        flds = re.findall(r"(?:pub(?:\([a-z]+\))?\s+)?([a-z_][a-z_0-9]*)\s*:\s*([^,\n]+?)\s*,", body)
+        order = [f for f, _ in flds]
+        if len(order) != len(kinds):
+            raise GenError("struct %s has fields %r, expected %d" % (ty, order, len(kinds)))
+        for (f, t), k in zip(flds, kinds):
+            if t not in KIND_TYPES[k]:
+                raise GenError("struct %s: field %s has type %s, not of kind %d" % (ty, f, t, k))
+        gen = r"impl<[^{;]*?>\s*(?:[a-z]+::)?"
+        # PartialEq
+        eb = fn_body(impl_after(src, gen + r"PartialEq<%s<[^>]*>>\s*for\s+%s<[^>]*>\s*(?:where[^{]*)?\{" % (ty, ty), "PartialEq for " + ty), "eq")
+        es = re.findall(r"self\.([a-z_]+)(?:\.as_ref\(\)|\.into_int\(\))*\s*(?:==\s*|\.eq\(\s*&?\s*|\.name_eq\(\s*&\s*)other\.([a-z_]+)", eb)
+        if any(a != b_ for a, b_ in es) or len(es) != len(re.findall(r"\bother\.", eb)):
+            raise GenError("%s::eq: unrecognised comparison" % ty)
+        # Hash
+        hdr = gen + r"Hash\s+for\s+%s<[^>]*>\s*(?:where[^{]*)?\{" % ty
+        if re.search(hdr, src, re.S):
+            hb = fn_body(impl_after(src, hdr, "Hash for " + ty), "hash")
+            hs = re.findall(r"self\.([a-z_]+)(?:\.as_ref\(\)|\.into_int\(\))*\.hash\(state\)", hb)
+            if len(hs) != len(re.findall(r"\.hash\(state\)", hb)):
+                raise GenError("%s::hash: unrecognised feed" % ty)
+        else:
+            before = src[max(0, m.start() - 600):m.start()]
+            ds = re.findall(r"#\[derive\(([^)]*)\)\]", before)
+            if not ds or "Hash" not in [x.strip() for x in ds[-1].split(",")]:
+                raise GenError("%s: neither a Hash impl nor derive(Hash)" % ty)
+            hs = list(order)   # derive: every field, in declaration order
+        # CanonicalOrd and Ord
+        rx = re.compile(r"(?:u32::from\()?self\.([a-z_]+)\)?((?:\.into_int\(\)|\.as_ref\(\))*)\s*\.\s*(cmp|canonical_cmp|name_cmp|composed_cmp|lowercase_composed_cmp|partial_cmp)\(\s*&?\s*(?:u32::from\()?(self|other)\.([a-z_]+)")
+        def chain(body, what):
+            got = []
+            for mm in rx.finditer(body):
+                if mm.group(4) != "other" or mm.group(1) != mm.group(5):
+                    raise GenError("%s compares self.%s with %s.%s" % (what, mm.group(1), mm.group(4), mm.group(5)))
+                got.append((mm.group(1), mm.group(3)))
+            return got
+        cb = fn_body(impl_after(src, gen + r"CanonicalOrd<%s<[^>]*>>\s*for\s+%s<[^>]*>\s*(?:where[^{]*)?\{" % (ty, ty), "CanonicalOrd for " + ty), "canonical_cmp")
+        cs = chain(cb, ty + "::canonical_cmp")
+        for (f, meth), k in zip(cs, [kinds[order.index(f)] for f, _ in cs]):
+            want = {4: "lowercase_composed_cmp", 5: "composed_cmp", 6: "canonical_cmp", 8: "canonical_cmp", 9: ("canonical_cmp", "cmp")}.get(k, "cmp")
+            if meth != want and meth not in (want if isinstance(want, tuple) else ()) and not (k == 3 and meth == "canonical_cmp"):
+                raise GenError("%s::canonical_cmp: field %s (kind %d) compared with %s" % (ty, f, k, meth))
+        ob = fn_body(impl_after(src, gen + r"Ord\s+for\s+%s<[^>]*>\s*(?:where[^{]*)?\{" % ty, "Ord for " + ty), "cmp")
+        if re.search(r"self\.canonical_cmp\(\s*other\s*\)", ob):
+            os_ = [f for f, _ in cs]
+        else:
+            os_ = [f for f, _ in chain(ob, ty + "::cmp")]
+        row = "(%d, (%s, (%s, %s, %s, %s)))" % (code, nlist(kinds), nlist(idx_list([a for a, _ in es], order, ty + "::eq")),
+              nlist(idx_list(os_, order, ty + "::cmp")), nlist(idx_list([f for f, _ in cs], order, ty + "::canonical_cmp")),
+              nlist(idx_list(hs, order, ty + "::hash")))
+        return row
+    rows = [
+        type_table("src/rdata/rfc1035/mx.rs", "Mx", 15, [2, 4]),
+        type_table("src/rdata/rfc1035/soa.rs", "Soa", 6, [4, 4, 3, 3, 3, 3, 3]),
+        type_table("src/rdata/srv.rs", "Srv", 33, [2, 2, 2, 4]),
+        type_table("src/rdata/rfc1035/hinfo.rs", "Hinfo", 13, [6, 6]),
+        type_table("src/rdata/rfc1035/minfo.rs", "Minfo", 14, [4, 4]),
+        type_table("src/rdata/rp.rs", "Rp", 17, [4, 4]),
+        type_table("src/rdata/tlsa.rs", "Tlsa", 52, [1, 1, 1, 7]),
+        type_table("src/rdata/sshfp.rs", "Sshfp", 44, [1, 1, 7]),
+        type_table("src/rdata/zonemd.rs", "Zonemd", 63, [3, 1, 1, 7]),
+        type_table("src/rdata/dnssec.rs", "Ds", 43, [2, 1, 1, 7]),
+        type_table("src/rdata/cds.rs", "Cds", 59, [2, 1, 1, 7]),
+        type_table("src/rdata/dnssec.rs", "Dnskey", 48, [2, 1, 1, 7]),
+        type_table("src/rdata/cds.rs", "Cdnskey", 60, [2, 1, 1, 7]),
+        type_table("src/rdata/dnssec.rs", "Rrsig", 46, [2, 1, 1, 3, 3, 3, 2, 4, 7]),
+        type_table("src/rdata/dnssec.rs", "Nsec", 47, [5, 9]),
+        type_table("src/rdata/nsec3.rs", "Nsec3", 50, [1, 1, 2, 8, 8, 9]),
+        type_table("src/rdata/nsec3.rs", "Nsec3param", 51, [1, 1, 2, 8]),
+        type_table("src/rdata/caa.rs", "Caa", 257, [1, 6, 7]),
+        type_table("src/rdata/naptr.rs", "Naptr", 35, [2, 2, 6, 6, 6, 4]),
+    ]
+    defs.append(("rd_table", "list (N * (list N * (list N * list N * list N * list N)))", "[" + "; ".join(rows) + "]%N"))
     tx = strip_comments(read("src/rdata/rfc1035/txt.rs"))
     b = impl_after(tx, r"impl<Octs,\s*Other>\s*CanonicalOrd<Txt<Other>>\s*for\s+Txt<Octs>\s*where[^{]*\{", "Txt::canonical_cmp")
     one(r"self\.0\.as_ref\(\)\.cmp\(\s*other\.0\.as_ref\(\)\s*\)", b, "Txt::canonical_cmp is wire octets order")
